@@ -1889,7 +1889,7 @@ pub fn apply(disk: &mut Disk, s: &Surgery) -> Result<(), String> {
             // GPOS lookup of the font, and mark-to-mark positioning is quadratic in the number of
             // consecutive marks by design: minutes of honest work, which the watchdog cannot
             // tell from a hang. Large growth is therefore exercised without GPOS / kern.
-            if u64::from(k).saturating_pow(u32::from(lookups)) > 512 {
+            if u64::from(k).saturating_pow(u32::from(lookups)) > 64 {
                 disk.tables.remove(&tag_from_str("GPOS"));
                 disk.tables.remove(&tag_from_str("kern"));
             }
@@ -1905,7 +1905,7 @@ pub fn apply(disk: &mut Disk, s: &Surgery) -> Result<(), String> {
             disk.tables
                 .insert(tag_from_str("GSUB"), Rc::new(build_context_fanout(*glyph, records, depth, *variant)));
             // (as for InstallExpansion: the doubling variant can take the run to the limit)
-            if *variant / 2 % 4 == 2 && u64::from(records).saturating_pow(u32::from(depth)) > 512 {
+            if *variant / 2 % 4 == 2 && u64::from(records).saturating_pow(u32::from(depth)) > 64 {
                 disk.tables.remove(&tag_from_str("GPOS"));
                 disk.tables.remove(&tag_from_str("kern"));
             }
